@@ -266,7 +266,8 @@ func (g *c18Gen) staticType(depth int) (interpreter.StaticType, string) {
 
 func (g *c18Gen) typeVal() c18Val {
 	t, k := g.staticType(3)
-	return c18Val{v: interpreter.NewUnmeteredTypeValue(t), universe: "Type", key: k, built: "constructed", static: interpreter.PrimitiveStaticTypeMetaType}
+	// `built` is the type as listed (member order as constructed)
+	return c18Val{v: interpreter.NewUnmeteredTypeValue(t), universe: "Type", key: k, built: t.String(), static: interpreter.PrimitiveStaticTypeMetaType}
 }
 
 // ---- containers of the above
@@ -290,12 +291,32 @@ func (g *c18Gen) base(universe string) c18Val {
 	var raw *big.Int
 	if g.r.Intn(2) == 0 {
 		// a handful of values per type so that collisions are frequent
-		p := t.Pool()
-		raw = p[g.r.Intn(min(len(p), 12))]
+		p := c18Pool(t)
+		raw = p[g.r.Intn(len(p))]
 	} else {
 		raw = big.NewInt(int64(g.r.Intn(5)))
 	}
 	return g.numVal(t, raw)
+}
+
+var c18Pools = map[string][]*big.Int{}
+
+// c18Pool: a dozen boundary values per type (cached), so that collisions are frequent.
+func c18Pool(t oracle.Type) []*big.Int {
+	if p, ok := c18Pools[t.Name]; ok {
+		return p
+	}
+	all := t.Pool()
+	p := all[:min(len(all), 8)]
+	// plus the extremes
+	if t.Min != nil {
+		p = append(p, t.Min)
+	}
+	if t.Max != nil {
+		p = append(p, t.Max, new(big.Int).Sub(t.Max, big.NewInt(1)))
+	}
+	c18Pools[t.Name] = p
+	return p
 }
 
 func (g *c18Gen) optional(x c18Val, isNil bool) c18Val {
